@@ -108,6 +108,9 @@ def expected_refusal(kind, a, T):
             return "delete of an absent item"
         used = {"adsorbate": [r[1] for r in T["adsProps"]], "material": [r[1] for r in T["matProps"]], "isotherm": [r[1] for r in T["isos"]]}[table]
         return "still referenced" if t in used else None
+    if kind == "isoPropType":
+        # dictionary semantics of a property-type collection that is empty (nothing can ever be stored in it, see S39)
+        return {"to_db": None, "from_db": None, "to_db_overwrite": "overwrite of an absent item", "delete": "delete of an absent item"}[a[0]]
     if kind == "isoDelete":
         return None if a[0] in [r[0] for r in T["isos"]] else "delete of an absent item"
     if kind == "isoToDb":
@@ -213,6 +216,9 @@ def _run(ck, pg, pgsql, BaseIsotherm, rng, thorough, files):
             elif r < 0.64:
                 table = rng.choice(["adsorbate", "material", "isotherm"])
                 ops.append((fi, "typeDelete", (table, rng.choice(pkeys + ["special"]) if table != "isotherm" else rng.choice(["custom", "isotherm", "modelisotherm"]))))
+            elif r < 0.67:
+                # the entry points for isotherm property types (finding S39: the schema has no such table)
+                ops.append((fi, "isoPropType", (rng.choice(["to_db", "to_db_overwrite", "from_db", "delete"]), rng.choice(pkeys))))
             elif r < 0.86:
                 ops.append((fi, "isoToDb", (rng.choice(["base", "point", "model"]), rng.choice(mat_names), rng.choice(ads_names), rng.random() < 0.6, rng.random() < 0.6, rng.random() < 0.25)))
             else:
@@ -261,6 +267,15 @@ def _run(ck, pg, pgsql, BaseIsotherm, rng, thorough, files):
                     line = f"typeDelete {table} {t}"
                     fn = {"adsorbate": pgsql.adsorbate_property_type_delete_db, "material": pgsql.material_property_type_delete_db, "isotherm": pgsql.isotherm_type_delete_db}[table]
                     fn(t, db_path=path, verbose=False)
+                elif kind == "isoPropType":
+                    which, t = a
+                    line = f"isoPropTypeOp {which}"
+                    if which.startswith("to_db"):
+                        pgsql.isotherm_property_type_to_db({"type": t, "unit": "u", "description": "d"}, db_path=path, overwrite=which.endswith("overwrite"), verbose=False)
+                    elif which == "from_db":
+                        pgsql.isotherm_property_types_from_db(db_path=path, verbose=False)
+                    else:
+                        pgsql.isotherm_property_type_delete_db(t, db_path=path, verbose=False)
                 elif kind == "isoToDb":
                     ikind, mat, ads, am, aa, again = a
                     if again and stored[fi]:
@@ -386,6 +401,20 @@ def _check_effect(ck, pg, pgsql, kind, a, obj, path, before, after, sig, line, s
         name = a[0]
         if name in after[key] or any(r[0] == name for r in after[pk]) or [x for x in before[key] if x != name] != after[key] \
                 or [r for r in before[pk] if r[0] != name] != after[pk]:
+            ck.fail_case({**sig, "clause": "deletion removes exactly that item"}, {"line": line})
+    elif kind in ("typeToDb", "typeDelete"):
+        # retrieval of the type collections: what `*_types_from_db` returns is exactly the raw table (type, unit, description), in insertion order
+        table = a[0]
+        key = {"adsorbate": "adsTypes", "material": "matTypes", "isotherm": "isoTypes"}[table]
+        fn = {"adsorbate": pgsql.adsorbate_property_types_from_db, "material": pgsql.material_property_types_from_db, "isotherm": pgsql.isotherm_types_from_db}[table]
+        got = fn(db_path=path, verbose=False)
+        if table == "isotherm":
+            rows = [(g.get("type"), g.get("description") or "") for g in got]
+        else:
+            rows = [(g.get("type"), g.get("unit") or "", g.get("description") or "") for g in got]
+        if rows != [tuple(r) for r in after[key]]:
+            ck.fail_case({**sig, "clause": "retrieved type collection equals the stored one", "table": table}, {"line": line, "retrieved": str(rows)[:300], "stored": str(after[key])[:300]})
+        if kind == "typeDelete" and (a[1] in [r[0] for r in after[key]] or [r for r in before[key] if r[0] != a[1]] != after[key]):
             ck.fail_case({**sig, "clause": "deletion removes exactly that item"}, {"line": line})
     elif kind == "isoToDb":
         desc = a[0]
